@@ -16,6 +16,7 @@
    was created, i.e. in the deferred-symlink phase) is reported as ESCAPE-KNOWN and accepted; any
    other escape rejects the trace. *)
 EXTENDS FsModel, TLC, Json, IOUtils
+TM == INSTANCE TreeModel
 Trc == ndJsonDeserialize(IOEnv.TRACE)
 VARIABLES l, fs, cwd, root, fds, danger, mode, known
 tvars == <<l, fs, cwd, root, fds, danger, mode, known>>
@@ -133,6 +134,17 @@ TExpect == /\ IsEvent("Expect")
            /\ Chk("C06: expected entry missing or different", \A i \in 1..Len(Ev.items) : ExpOK(Ev.items[i], Ev.tree))
            /\ Chk("C06: unexpected entry", Len(Ev.tree) = Len(Ev.items))
            /\ UNCHANGED <<fs, cwd, root, fds, danger, mode, known>>
+\* ExpectModel{items, opts, filters, pre, answers, tree}: the final tree must be TreeModel!ModelTree (C06 with
+\* wildcards, pre-existing files, overwrite policy and prompt answers)
+TExpectModel ==
+  /\ IsEvent("ExpectModel")
+  /\ LET want == TM!ModelTree(cwd, Ev.items, Ev.opts, Ev.filters, Ev.pre, Ev.answers).tree
+         got  == Ev.tree
+     IN /\ Chk("harness: not enough prompt answers supplied", ~TM!Starved(cwd, Ev.items, Ev.opts, Ev.filters, Ev.pre, Ev.answers))
+        /\ Chk("C06: entry missing from the extracted tree", \A loc \in DOMAIN want : \E i \in 1..Len(got) : got[i].loc = loc)
+        /\ Chk("C06: unexpected entry in the extracted tree", \A i \in 1..Len(got) : got[i].loc \in DOMAIN want)
+        /\ Chk("C06: entry differs from the model tree", \A i \in 1..Len(got) : got[i].loc \in DOMAIN want => TM!NodeMatches(want[got[i].loc], got[i]))
+  /\ UNCHANGED <<fs, cwd, root, fds, danger, mode, known>>
 \* End{predict}: for archives generated by the bounded model (MC_Extract) the model's own prediction of
 \* whether the extraction escapes must agree with what the real tool did
 TEnd == /\ IsEvent("End")
@@ -140,7 +152,7 @@ TEnd == /\ IsEvent("End")
         /\ UNCHANGED <<fs, cwd, root, fds, danger, mode, known>>
 TOther == /\ l <= Len(Trc) /\ Ev.e \in {"Exit"} /\ l' = l + 1 /\ UNCHANGED <<fs, cwd, root, fds, danger, mode, known>>
 
-TStep == TReset \/ TSys \/ TFinal \/ TExpect \/ TEnd \/ TOther
+TStep == TReset \/ TSys \/ TFinal \/ TExpect \/ TExpectModel \/ TEnd \/ TOther
 TSpec == TInit /\ [][TStep]_tvars
 Accepted == LET dd == TLCGet("stats").diameter - 1
             IN IF dd = Len(Trc) THEN TRUE ELSE PrintT(<<"REJECTED_AT_LINE", dd + 1>>) /\ FALSE
